@@ -167,7 +167,7 @@ def run(ctx):
     if ctx.tier == 'quick':
         core.run_sharded(ctx, __name__, 'shard', 1, (2,))
     else:
-        core.run_sharded(ctx, __name__, 'shard', getattr(ctx, 'shards_override', None) or 16, (30,))
+        core.run_sharded(ctx, __name__, 'shard', getattr(ctx, 'shards_override', None) or 16, (60,))
     ctx.exhaustive['shape-space-1400'] = ctx.counts.get('shapes-visited', 0) == 1400
 
 
